@@ -79,6 +79,42 @@ def path_contracts():
         exe.obligation(path, 'panic:slice of a path that does not start with /', z3.Not(z3.And(z3.BoolVal(len(s) >= 2), s[0] == z3.StringVal(''))) if len(s) >= 2 else z3.BoolVal(True))
         return [('ret', path, Agg('PathStr', None, {0: tuple(s[1:])}))]
 
+    @reg(r'^core::str::<impl str>::strip_prefix::<char>$')
+    def strip_prefix(exe, path, callee, args, dst_ty):
+        s_ = segs(exe, path, args[0])
+        if z3.simplify(args[1]).as_long() != ord('/'):
+            raise MirUnsupported('strip_prefix of another character')
+        if len(s_) < 2:
+            return [('ret', path, NONE)]
+        outs = []
+        yes = path.clone()
+        if exe.feasible(yes, [s_[0] == z3.StringVal('')]):
+            yes.pc.append(s_[0] == z3.StringVal(''))
+            outs.append(('ret', yes, some(Agg('PathStr', None, {0: tuple(s_[1:])}))))
+        if exe.feasible(path, [s_[0] != z3.StringVal('')]):
+            path.pc.append(s_[0] != z3.StringVal(''))
+            outs.append(('ret', path, NONE))
+        return outs
+
+    @reg(r'^core::str::<impl str>::contains::<&str>$')
+    def contains(exe, path, callee, args, dst_ty):
+        s_ = segs(exe, path, args[0])
+        pat = contracts.strval(exe, path, args[1])
+        if not (isinstance(pat, z3.ExprRef) and z3.is_string_value(pat)):
+            raise MirUnsupported('contains of %r' % (pat,))
+        t = pat.as_string()
+        if t.startswith('/') and '/' not in t[1:]:
+            # "/xyz" occurs iff a segment other than the first starts with "xyz"
+            rest = z3.StringVal(t[1:])
+            return [('ret', path, z3.Or([z3.PrefixOf(rest, x) for x in s_[1:]]) if len(s_) > 1 else z3.BoolVal(False))]
+        if '/' not in t:
+            return [('ret', path, z3.Or([z3.Contains(x, pat) for x in s_]))]
+        raise MirUnsupported('contains(%r) on a path' % t)
+
+    @reg(r'^<str as ToString>::to_string$|^<str as ToOwned>::to_owned$|^<String as From<&str>>::from$')
+    def to_string(exe, path, callee, args, dst_ty):
+        return [('ret', path, contracts.strval(exe, path, args[0]))]
+
     @reg(r'^std::slice::<impl \[&str\]>::join::<&str>$|^alloc::slice::<impl \[&str\]>::join::<&str>$')
     def join(exe, path, callee, args, dst_ty):
         v = exe.deref_all(path, args[0])
@@ -218,6 +254,37 @@ def concrete(model, paths):
     return out
 
 
+def e2e_many(pairs):
+    """batch version of e2e -> first deviation text or None"""
+    reqs, meta = [], []
+    for base, rel in pairs:
+        want = py_resolve(base, rel)
+        if not want or any(ch in base + rel for ch in '"<>&{') or base.endswith('/') or not base or want == base:
+            continue
+        reqs.append({'files': [[base, '<import src="%s"/>' % rel], [want, '<view/>']], 'main': base, 'want': ['direct_dependencies']})
+        meta.append((base, rel, want))
+    if not reqs:
+        return None
+    r = common.replay(['tmpl'], stdin=json.dumps(reqs), timeout=120)
+    for (base, rel, want), out in zip(meta, json.loads(r.stdout)):
+        deps = out.get('direct_dependencies')
+        if deps is None or isinstance(deps, dict):
+            continue
+        if deps != [want]:
+            return 'file %r importing %r depends on %r, the reference resolver gives %r' % (base, rel, deps, want)
+    return None
+
+
+def candidate_pairs():
+    import itertools
+    rels = []
+    for n in (1, 2, 3):
+        for segs_ in itertools.product(('a', 'c', '.', '..'), repeat=n):
+            rels.append('/'.join(segs_))
+            rels.append('/' + '/'.join(segs_))
+    return [(b, r) for b in ('p/q', 'p/q/r', 'x') for r in rels]
+
+
 def e2e(base, rel):
     """a template at `base` that imports `rel`: the group API must report the reference resolver's target -> deviation text or None"""
     want = py_resolve(base, rel)
@@ -259,6 +326,10 @@ def main(tier):
             res.coverage['traces_validated_against_impl'] = res.coverage.get('traces_validated_against_impl', 0) + 1
             if why:
                 break
+        if not why:
+            pairs = candidate_pairs()
+            why = e2e_many(pairs)
+            res.coverage['traces_validated_against_impl'] = res.coverage.get('traces_validated_against_impl', 0) + len(pairs)
         if why:
             res.violation({'engine': 'M', 'harness': 'M13-' + name, 'class': cls}, 'path::%s%r deviates from the reference resolver (%s); end to end: %s' % (name, tuple(args), cls, why),
                           {'base': args[0], 'rel': args[-1]})
